@@ -47,16 +47,19 @@ DriftSigs(r) ==
    THEN {Sg("Walk", "order-differs-from-field-order", r.kind, "-")} ELSE {})
   \cup {Sg("Walk", "typed-nil-callback", r.kind, "-") : i \in {i \in 1..Len(r.wlog) : r.wlog[i] = -1}}
   \cup {Sg("Walk", "foreign-callback", r.kind, "-") : i \in {i \in 1..Len(r.wlog) : r.wlog[i] = -2}}
-Class(r) == IF Sigs(r) # {} THEN "violation" ELSE IF Masked(r) THEN "masked" ELSE IF DriftSigs(r) # {} THEN "drift" ELSE "ok"
+Judge(r) == LET s == Sigs(r)  d == DriftSigs(r) IN
+            [cls |-> IF s # {} THEN "violation" ELSE IF Masked(r) THEN "masked" ELSE IF d # {} THEN "drift" ELSE "ok",
+             sigs |-> s, dsigs |-> d]
 
 (* ---- record walk: every record that is not "ok" is listed with its signatures ---- *)
+J == [i \in 1..Len(Obs) |-> Judge(Obs[i])]                  \* each record judged once
 VARIABLES l, nbad
 Init == l = 1 /\ nbad = 0
-Next == l <= Len(Obs) /\ l' = l + 1 /\ nbad' = nbad + (IF Class(Obs[l]) = "ok" THEN 0 ELSE 1)
-BadIdx == SelectSeq([i \in 1..Len(Obs) |-> i], LAMBDA i : Class(Obs[i]) # "ok")
+Next == l <= Len(Obs) /\ l' = l + 1 /\ nbad' = nbad + (IF J[l].cls = "ok" THEN 0 ELSE 1)
+BadIdx == SelectSeq([i \in 1..Len(Obs) |-> i], LAMBDA i : J[i].cls # "ok")
 Out == [j \in 1..Len(BadIdx) |->
-          LET r == Obs[BadIdx[j]] IN
-          [k |-> BadIdx[j], id |-> r.id, cls |-> Class(r), sigs |-> SetToSeq(Sigs(r)), dsigs |-> SetToSeq(DriftSigs(r))]]
+          LET i == BadIdx[j] IN
+          [k |-> i, id |-> Obs[i].id, cls |-> J[i].cls, sigs |-> SetToSeq(J[i].sigs), dsigs |-> SetToSeq(J[i].dsigs)]]
 Done == l = Len(Obs) + 1 => ndJsonSerialize("bad.ndjson", IF nbad = 0 THEN <<>> ELSE Out)
 Consumed == TLCGet("stats").diameter - 1 = Len(Obs)
 =============================================================================
